@@ -408,7 +408,9 @@ def handle (j : Json) : D Json := do
     pure (Json.mkObj [("ok", Json.mkObj [
       ("dict", .arr (d.map (fun kv => Json.arr #[jNat kv.1.1, jNat kv.1.2, jRat kv.2])).toArray),
       ("tiers", jRanking (dominatingTiers p)),
-      ("fill_agrees", .bool ((pairs p.cands).all (fun ab =>
+      -- the mirror of the `ballot_fill` enumeration is for untied ballots (C06_fill_correct)
+      ("fill_agrees", .bool (!(p.ballots.all (fun bl => bl.ranking.all (fun s => s.length = 1))) ||
+        (pairs p.cands).all (fun ab =>
           h2hFill p ab.1 ab.2 = h2h p ab.1 ab.2 && h2hFill p ab.2 ab.1 = h2h p ab.2 ab.1)))])])
   | "history" => do
     -- run a rule, then answer a sequence of round queries on the finished election
